@@ -22,7 +22,7 @@ from harness.core import err_name, run_oracle_cases
 PROP = 'C01'
 PROOF_MODULES = ['Ladybug.Props.C01']
 GREP_MODULES = ['Ladybug.Model.Epw', 'Ladybug.Gen.EpwFields', 'Ladybug.Gen.DesignDayTables',
-                'Ladybug.Proofs.C01Lemmas', 'Ladybug.Drv.C01', 'Ladybug.Model.Cal', 'Ladybug.Py']
+                'Ladybug.Proofs.C01Lemmas', 'Ladybug.Proofs.C01Header', 'Ladybug.Drv.C01', 'Ladybug.Model.Cal', 'Ladybug.Py']
 RULE = ('correspondence: full-size EPW texts (shipped files; synthetic files whose cells are distinct ids, '
         'canonical numbers or non-canonical spellings; 8760 and 8784 rows; 30..37 columns; blank lines; '
         'leap field Yes/No/absent) through import (columns after rotation) and import+write (rows, state '
@@ -509,8 +509,11 @@ def _impl_hist(spec, ops):
                 hs = [_hash_list(list(row)) for row in zip(*back)]
                 res = 'ok%d:%d' % (len(ls), _hash_list(hs))
             elif op == 'D':
-                e2 = EPW.from_dict(copy.deepcopy(e.to_dict()))
-                out.append('ok@' + _fp(e2))
+                try:
+                    e2 = EPW.from_dict(copy.deepcopy(e.to_dict()))
+                    out.append('ok@' + _fp(e2))
+                except Exception as ex:
+                    out.append('err:' + err_name(ex) + '@' + _fp(e))
                 continue
             else:
                 res = 'bad-op'
@@ -691,7 +694,8 @@ def correspondence(ctx):
                              ' '.join(ma[i] for i in bad) or a[:80], ' '.join(ic[i] for i in bad) or c[:80])
 
     # --- histories
-    hist = [({'leap': 'No', 'mode': 'ids', 'seed': 1}, ['H', 'W', 'I', 'W', 'F6', 'E', 'B', 'M', 'D', 'S'])]
+    hist = [({'leap': 'No', 'mode': 'ids', 'seed': 1}, ['H', 'W', 'I', 'W', 'F6', 'E', 'B', 'M', 'D', 'S']),
+            ({'leap': 'No', 'mode': 'ids', 'seed': 9, 'ncols': 30}, ['D', 'W'])]
     if not ctx.quick:
         hist += [({'leap': '', 'mode': 'ids', 'seed': 2, 'nrows': 8784}, ['H', 'W', 'E', 'D']),
                  ({'leap': 'Yes', 'mode': 'ids', 'seed': 3}, ['I', 'F14', 'B', 'W', 'M'])]
@@ -1219,17 +1223,25 @@ def oracle(ctx):
 
 
 LEVEL_TEXT = ('Machine-checked Lean 4 theorems over an executable model of epw.py: the two rotations are mutually '
-              'inverse on every list, hence write(read) reproduces canonical rows cell for cell for any row count, '
-              'write-read-write is a fixed point, every cell of a point-in-time field sits at index (r+1) mod N whose '
-              'date-time is the stamped hour (24 -> 0:00 next day, last row -> 1 Jan 0:00) and radiation/illuminance '
-              'cells stay at index r, to_file_string/to_wea leave the state unchanged also on the error path, the '
-              'header lines regenerate to the same parsed header, Wea/MOS lines carry the values of the same index. '
-              'The field table is regenerated from epw.py on every run and the model is compared with the real class '
-              'on shipped and synthetic full-size files, header blocks and operation histories.')
+              'inverse on every list; what _import_body stores is the parsed table transposed with the point-in-time '
+              'columns rotated, hence write(read) reproduces the rows cell for cell in canonical form for 8760/8784 (any '
+              'N) rows and write-read-write is a fixed point; every cell of a point-in-time field sits at index '
+              '(r+1) mod N whose date-time is the stamped hour (24 -> 0:00 next day, last row -> 1 Jan 0:00) and '
+              'radiation/illuminance cells stay at index r; to_file_string/to_wea leave the state unchanged also on the '
+              'error path; parseHeader(renderHeader h) = h for all eight header lines (location, design conditions in '
+              'both key layouts or absent, any number of weeks and ground depths, leap/DST fields, comments) under '
+              'exactly stated side conditions, with counterexamples where the format loses information; the stamps of '
+              'from_missing_values are the EPW stamps for every row of both years; Wea/MOS lines carry the values of '
+              'the same index; from_dict(to_dict) returns the same data. The field table is regenerated from epw.py on '
+              'every run and the model is compared with the real class on shipped and synthetic full-size files, '
+              'header blocks and operation histories.')
 LEVEL_NOTE = ('Trusted: Lean kernel; axioms propext/Classical.choice/Quot.sound only; the field-table extractor; the '
-              'correspondence run (agreement on generated inputs only); CPython number parsing/printing (hypothesis '
-              'Codec.Lawful); comma split/join (header theorems at token level); IP/SI conversion is C06\'s. Recorded '
-              'findings: ground temperatures are rewritten with 2 decimals, incomplete design conditions are dropped, '
-              'atmospheric pressure is not treated as point-in-time.')
+              'correspondence run (agreement on generated inputs only); CPython number parsing/printing (hypotheses '
+              'Codec.Lawful for body cells, per-token codec facts in Hdr.Canonical for the header; evaluated in the '
+              'kernel for a concrete header in the driver\'s decimal codec); comma split/join (header theorems at token '
+              'level); IP/SI conversion is C06\'s; nested to_dict forms of Location/AnalysisPeriod/MonthlyCollection are '
+              'C07\'s. Recorded findings: ground temperatures are rewritten with 2 decimals, incomplete design '
+              'conditions are dropped (both with counterexample theorems), atmospheric pressure is not treated as '
+              'point-in-time.')
 TECHNIQUE = ('Lean 4 proof (list induction, getElem extensionality, omega; C08 calendar theorems) about a '
              'value-parametric model tied to epw.py by a regenerated field table and differential correspondence')
